@@ -12,10 +12,7 @@ abbrev Field := List Nat × List Nat
 def B (s : String) : List Nat := s.toList.map Char.toNat
 
 /-- a pseudo-header field name starts with ':' (RFC 9114 §4.3) -/
-def isPseudoName (n : List Nat) : Bool :=
-  match n with
-  | 58 :: _ => true
-  | _ => false
+def isPseudoName (n : List Nat) : Bool := n.head? == some 58
 
 /-- RFC 9110 §5.6.2 `tchar`, restricted to lower case (RFC 9114 §4.2) -/
 def lowerTchar (b : Nat) : Bool :=
